@@ -316,6 +316,65 @@ def idset(ctx, crate, E):
            "categories and SPACE detection change)")
 
 
+WIDE_TYPES = ("u32", "u64", "usize", "u128", "i64", "i128")
+LOSSLESS_CALLS = ("from", "from_u32", "into", "try_from", "unwrap", "try_into")
+
+
+def charkey(ctx, crate, E):
+    """CHARKEY (C03, C12, C01): CharProperty::char_info looks a character up by its whole code
+    point. Every read of the table in char_info is indexed either by a constant (the DEFAULT
+    slot used for code points beyond the table) or by the `char` parameter through widening
+    conversions only (u32::from, usize::from_u32, `as u32/usize`): a narrowing cast or a mask
+    makes a supplementary-plane character share the record of an unrelated BMP character."""
+    p = CH + "CharProperty::char_info"
+    f = crate.fns.get(p)
+    if f is None or not f.body:
+        raise EngineError("CHARKEY: anchor lost: %s" % p)
+    todo = [p] + sorted(q for q in crate.fns if q.startswith(p + "::{closure") and crate.fns[q].body)
+    n = 0
+    for q in todo:
+        fa = E.fa(q)
+        S = Sym(E, fa, depth=30)
+        for b, t in fa.calls():
+            ps = [strip_generics(x) for x in callee_paths(t)]
+            if not any(x.endswith("Index::index") or x.endswith("slice::get") or x.endswith("::get")
+                       or x.endswith("get_unchecked") for x in ps) or len(t["args"]) < 2:
+                continue
+            base = show(S.operand(t["args"][0]))
+            if "chr2inf" not in base and q == p:
+                continue
+            e = S.operand(t["args"][1])
+            n += 1
+            why = None
+            cur = e
+            for _ in range(12):
+                if cur[0] == "const":
+                    break
+                if cur[0] == "cast":
+                    if cur[2] not in WIDE_TYPES:
+                        why = "narrowing cast to %s" % cur[2]
+                        break
+                    cur = cur[1]
+                    continue
+                if cur[0] == "call" and len(cur[2]) == 1 and cur[1].rsplit("::", 1)[-1] in LOSSLESS_CALLS:
+                    tail = cur[1]
+                    if any(w in tail for w in ("<u8 ", "<u16 ", "<i8 ", "<i16 ", "u8 as", "u16 as")):
+                        why = "conversion %s" % tail
+                        break
+                    cur = cur[2][0]
+                    continue
+                if cur[0] == "ap" and cur[1].root == ("arg", 2) and not cur[1].proj and q == p:
+                    break
+                why = "index %s" % show(cur)[:60]
+                break
+            ctx.ob("CHARKEY", "char_info|index-is-whole-code-point|%d" % n, why is None, fa.loc(b),
+                   "the character table is indexed by the whole code point (or the constant DEFAULT slot)"
+                   if why is None else
+                   "char_info does not index the character table by the whole code point (%s): code "
+                   "points beyond U+FFFF alias unrelated characters" % why)
+    ctx.floor("CHARKEY", "table reads in char_info", n, 1)
+
+
 def run(ctx):
     crate = ctx.facts("A").lib
     E = Effects(crate)
@@ -323,3 +382,9 @@ def run(ctx):
     cols(ctx, crate, E)
     args(ctx, crate, E)
     idset(ctx, crate, E)
+    charkey(ctx, crate, E)
+
+
+def run_key(ctx):
+    crate = ctx.facts("A").lib
+    charkey(ctx, crate, Effects(crate))
